@@ -58,7 +58,7 @@ RULE = (
     "every containing window, the others on chromosomes of 60..3000 bases with sampled containing and cutting windows.  One signature per (class, coding, exon lengths, gaps, strand, CDS offsets, parent kind, "
     "window offsets); non-trivial = >= 2 exons or coding or minus strand or a chunk that does not start at 0."
 )
-SCOPE = {"quick": {"GS": 5, "K": 3, "CDS": 4, "NR": 3000, "NALL": 64},
+SCOPE = {"quick": {"GS": 5, "K": 3, "CDS": 4, "NR": 9000, "NALL": 160},
          "thorough": {"GS": 6, "K": 3, "CDS": None, "NR": 16000, "NALL": 800}}
 EXHAUSTIVE_SCOPE = {t: f"exon layouts over {s['GS']} positions, <= {s['K']} exons, chromosome {s['GS'] + 4}, all overlapping windows"
                     for t, s in SCOPE.items()}
